@@ -59,8 +59,8 @@ OPS = [
     ("keep methods", None, "var kEach = [].forEach, kMap = [1, 2].map, kUp = 'x'.toUpperCase, kBound = [].forEach.bind([4, 5]); 0", "value", {"km": 1}),
     ("kept methods: call, callbacks throw inside try", None,
      "typeof kEach === 'function' ? (function () { var n = 0; kEach.call([1, 2, 3], function (x) { n += x }); kBound(function (x) { n += x }); "
-     "var t; try { kMap(function () { throw new Error('e') }) } catch (e) { t = 'caught' + e.message } "
-     "try { kBound(function () { return null.p }) } catch (e) { t += e.name } return n + t + kUp.call('ab') + kMap(function (x) { return x * 2 }).join() })() : 'nokm'",
+     "var t; try { kMap.call([1, 2], function () { throw new Error('e') }) } catch (e) { t = 'caught' + e.message } "
+     "try { kBound(function () { return null.p }) } catch (e) { t += e.name } return n + t + kUp.call('ab') + kMap.call([1, 2], function (x) { return x * 2 }).join() })() : 'nokm'",
      "value", {}),
     ("set a=11", None, ("set", "a", 11), "value", {"a": 11}),
     ("a=12, loop forever inside try", "time", "a = 12; try { while (true) { } } catch (e) { a = -1 } finally { a = -2 }", "time", {"a": 12}),
